@@ -960,3 +960,120 @@ pub fn run_schedule_probe(scn: &DScn, prefix: &[usize]) -> Vec<String> {
         ex.enabled().iter().map(|a| format!("{:?}", a)).collect()
     })
 }
+
+// ------------------------------------------------------------------------------------------
+// C06, daemon-level clause: a transport that keeps the trait's DEFAULT `pdu_handler` and whose
+// `receive()` decodes raw datagrams exactly as `UdpTransport::receive` does.
+struct ByteTransport {
+    rx: mpsc::Receiver<Vec<u8>>,
+    out: mpsc::UnboundedSender<(VariableID, PDU)>,
+}
+#[async_trait]
+impl PDUTransport for ByteTransport {
+    async fn request(&mut self, destination: VariableID, pdu: PDU) -> Result<(), IoError> {
+        let _ = self.out.send((destination, pdu));
+        Ok(())
+    }
+    async fn receive(&mut self) -> Result<PDU, IoError> {
+        match self.rx.recv().await {
+            Some(b) => match PDU::decode(&mut b.as_slice()) {
+                Ok(pdu) => Ok(pdu),
+                Err(err) => Err(IoError::new(std::io::ErrorKind::InvalidData, err.to_string())),
+            },
+            None => std::future::pending().await,
+        }
+    }
+}
+
+/// feed every datagram to one running daemon; it must keep running, keep spawning receive
+/// transactions for valid PDUs and keep answering its user. Returns (datagrams fed, failures).
+pub fn byte_daemon_run(inputs: &[Vec<u8>]) -> (usize, Vec<(String, String, String)>) {
+    let rt = tokio::runtime::Builder::new_current_thread().enable_time().start_paused(true).build().unwrap();
+    rt.block_on(async {
+        let dir = EDIR.with(|d| d.clone()).join("bytes");
+        let _ = std::fs::remove_dir_all(&dir);
+        std::fs::create_dir_all(&dir).unwrap();
+        std::fs::write(dir.join("src.bin"), b"hello").unwrap();
+        let trace: TraceBuf = std::rc::Rc::new(std::cell::RefCell::new(vec![]));
+        install_trace(Some(trace.clone()));
+        let (prim_tx, prim_rx) = mpsc::channel(100);
+        let (ind_tx, mut ind_rx) = mpsc::channel(10_000);
+        let (byte_tx, byte_rx) = mpsc::channel::<Vec<u8>>(16);
+        let (out_tx, mut out_rx) = mpsc::unbounded_channel();
+        let transport: Box<dyn PDUTransport + Send> = Box::new(ByteTransport { rx: byte_rx, out: out_tx });
+        let mut map = HashMap::new();
+        map.insert(vec![ent(1)], transport);
+        let fs = Arc::new(NativeFileStore::new(camino::Utf8Path::new(dir.to_str().unwrap())));
+        let cfg = {
+            let mut c = Scenario::base("c06");
+            c.max_count = 1;
+            c
+        };
+        let mut daemon = Daemon::new(ent(0), VariableID::from(SEQ), map, fs, HashMap::new(), entity_config(&cfg), prim_rx, ind_tx);
+        let task = tokio::spawn(async move { daemon.manage_transactions().await.is_ok() });
+        let mut fails = vec![];
+        let mut fed = 0;
+        for b in inputs {
+            fed += 1;
+            if byte_tx.send(b.clone()).await.is_err() {
+                fails.push(("daemon-transport-died".into(), "send".into(), format!("the transport task is gone before datagram {}", hex(b))));
+                break;
+            }
+            tokio::time::sleep(Duration::from_millis(1)).await;
+            while ind_rx.try_recv().is_ok() {}
+            while out_rx.try_recv().is_ok() {}
+            if task.is_finished() {
+                fails.push(("daemon-stopped".into(), "datagram".into(), format!("the daemon stopped after datagram {}", hex(b))));
+                break;
+            }
+            if byte_tx.is_closed() {
+                fails.push(("daemon-transport-died".into(), "datagram".into(), format!("the transport task died on datagram {}", hex(b))));
+                break;
+            }
+        }
+        if fails.is_empty() {
+            // a valid metadata PDU from the peer must still start a receive transaction …
+            trace.borrow_mut().clear();
+            let payload = PDUPayload::Directive(Operations::Metadata(cfdp_core::pdu::MetadataPDU {
+                closure_requested: false,
+                checksum_type: cfdp_core::filestore::ChecksumType::Modular,
+                file_size: 3,
+                source_filename: "a".into(),
+                destination_filename: "b".into(),
+                options: vec![],
+            }));
+            let pdu = PDU {
+                header: PDUHeader {
+                    version: U3::One,
+                    pdu_type: PDUType::FileDirective,
+                    direction: Direction::ToReceiver,
+                    transmission_mode: TransmissionMode::Unacknowledged,
+                    crc_flag: CRCFlag::NotPresent,
+                    large_file_flag: FileSizeFlag::Small,
+                    pdu_data_field_length: payload.encoded_len(FileSizeFlag::Small),
+                    segmentation_control: SegmentationControl::NotPreserved,
+                    segment_metadata_flag: SegmentedData::NotPresent,
+                    source_entity_id: ent(1),
+                    transaction_sequence_number: VariableID::from(4242u16),
+                    destination_entity_id: ent(0),
+                },
+                payload,
+            };
+            let _ = byte_tx.send(pdu.encode()).await;
+            tokio::time::sleep(Duration::from_millis(1)).await;
+            if !trace.borrow().iter().any(|e| matches!(e.2, LoopStep::Spawned("recv"))) {
+                fails.push(("daemon-deaf".into(), "".into(), "after the malformed datagrams a valid Metadata PDU did not start a receive transaction".into()));
+            }
+            // … and a Put must still be answered
+            let (tx, rx) = oneshot::channel();
+            let req = PutRequest { source_filename: "src.bin".into(), destination_filename: "dst.bin".into(), destination_entity_id: ent(1), transmission_mode: TransmissionMode::Unacknowledged, filestore_requests: vec![], message_to_user: vec![] };
+            let _ = prim_tx.send(UserPrimitive::Put(req, tx)).await;
+            tokio::time::sleep(Duration::from_millis(1)).await;
+            if rx.await.is_err() {
+                fails.push(("put-not-accepted".into(), "".into(), "after the malformed datagrams a Put was not answered".into()));
+            }
+        }
+        install_trace(None);
+        (fed, fails)
+    })
+}
